@@ -228,6 +228,14 @@ Base(b) ==
                                                                       EnumDecl(Name(<<"plum">>, "upper"), <<"FIRST">>, FALSE, "") >>) >>),
                                      Pkg(PkgNames[2], << File("a", << Import(PkgNames[1], "protofile", "", "p") >>,
                                                                << ObjectDecl(DeclNames[1][1], <<>>) >>) >>) >>]
+      \* inline types that need each other's names: Apple has an inline enum, Apricot an inline oneof, Almond an inline object
+      \* named like Almond itself; a field added next to them (named like the parent, or any inline type) is the focus
+      [] b = "inlsib" -> [pkgs |-> << Pkg(PkgNames[1], << File("a", <<>>,
+                            << ObjectDecl(DeclNames[1][1], << Plain(FieldNames[1], InlineEnum(NoName, <<"FIRST", "SECOND">>)) >>),
+                               ObjectDecl(DeclNames[1][2], << Plain(FieldNames[1], InlineOneof(NoName, <<MinOption(1)>>)) >>),
+                               ObjectDecl(DeclNames[1][3], << Plain(Name(DeclNames[1][3].w, "camel"), InlineEnum(NoName, <<"FIRST">>)) >>),
+                               ObjectDecl(DeclNames[1][4], << Plain(Name(DeclNames[1][4].w, "camel"), InlineObject(NoName, <<MinField(1)>>)) >>) >>),
+                            File("b", <<>>, << ObjectDecl(DeclNames[2][1], <<>>) >>) >>) >>]
       \* two imported packages with the same short name: foo.v1 by package (short name "foo") and qux.foo.v1 by alias only
       \* (R: "import <package>:<alias>" brings it in under the alias); both declare the same type names, so a reference
       \* that resolves to the wrong package still links
@@ -399,12 +407,17 @@ FieldChoices(b, c, n) ==
         fl == FileOfPath(b, c.path)
         full == Breadth = "full" /\ c.ctx = "object" /\ Wide(b)
         nm == FieldNames[n + 1]
+        objctx == Breadth = "full" /\ c.ctx = "object" /\ Len(GetNode(b, c.path).name.w) > 0
+        inlsib == IF ~objctx THEN {} ELSE { GetNode(b, c.path)[c.list][i].type.ik : i \in { k \in 1..n : GetNode(b, c.path)[c.list][k].type.k = "inline" } }
+        sibLabel == IF inlsib = {} THEN "" ELSE "/after-inline-" \o (CHOOSE k \in inlsib : TRUE)
+        selfsibLabel == IF objctx /\ \E i \in 1..n : LET f == GetNode(b, c.path)[c.list][i] IN f.type.k = "inline" /\ f.name.w = GetNode(b, c.path).name.w
+                        THEN "/after-self-named" ELSE ""
         scal == UNION { { [e |-> Field(nm, WithCard(Scalar(s), cd), pr[1], pr[2]), rich |-> 1, label |-> s \o "/" \o cd \o PresLabel(pr)]
                           : s \in (IF full THEN ScalarKinds ELSE LiteScalars),
                             \* (`!` on a map used to panic the real compiler; fixed in /repo by commit ce0acd9)
                             pr \in { x \in Presences : (cd = "single" \/ x \in {<<"none", "mark">>, <<"req", "mark">>}) /\ (full \/ x[2] = "mark") } }
                         : cd \in Cards }
-        inl == UNION { { [e |-> Field(nm, WithCard(it[1], cd), pr[1], pr[2]), rich |-> 1, label |-> it[2] \o "/" \o cd \o PresLabel(pr)]
+        inl == UNION { { [e |-> Field(nm, WithCard(it[1], cd), pr[1], pr[2]), rich |-> 1, label |-> it[2] \o "/" \o cd \o PresLabel(pr) \o selfsibLabel]
                          : it \in InlineTypes(full),
                            pr \in { x \in Presences : x = <<"none", "mark">> \/ (full /\ cd = "single" /\ x \in {<<"req", "mark">>, <<"opt", "mark">>}) } }
                        : cd \in Cards }
@@ -430,9 +443,15 @@ FieldChoices(b, c, n) ==
                        \ { <<Name(<<"a", "b", "c">>, "snake"), <<InlineEnum(NoName, <<"FIRST">>), "inline-enum">>>> } }
         \* R "Inline Types": "The inline type by default will take the name of the field" - also when the field is named like its
         \* parent (object Apple { field apple object {...} }); the real linker rejects the relative type name Apple.Apple (C07)
-        selfname == IF ~full THEN {} ELSE
-                    {[e |-> Plain(Name(GetNode(b, c.path).name.w, "camel"), InlineObject(NoName, <<MinField(1)>>)), rich |-> 1,
-                      label |-> "name-same-as-parent/inline-object"]}
+        \* (every inline kind; next to ANOTHER inline type of the same message the two need each other's names written out:
+        \* Apple.Apple captures the lookup of Apple.Alpha, whichever was declared first)
+        selfname == IF ~(full \/ (objctx /\ inlsib # {}))
+                       \/ (\E i \in 1..n : GetNode(b, c.path)[c.list][i].name.w = GetNode(b, c.path).name.w) THEN {} ELSE
+                    {[e |-> Plain(Name(GetNode(b, c.path).name.w, "camel"), it[1]), rich |-> 1,
+                      label |-> "name-same-as-parent/" \o it[2] \o sibLabel]
+                     : it \in { <<InlineObject(NoName, <<MinField(1)>>), "inline-object">>,
+                                <<InlineEnum(NoName, <<"FIRST", "SECOND">>), "inline-enum">>,
+                                <<InlineOneof(NoName, <<MinOption(1)>>), "inline-oneof">> } }
         \* ... and when that inline object has a nested type named like an inline type the parent already has
         \* (Apple.GammaOne and Apple.Apple.GammaOne): the existing field must keep referring to Apple.GammaOne
         selfdeep == IF Breadth = "full" /\ c.ctx = "object" /\ Len(GetNode(b, c.path).name.w) > 0
